@@ -50,6 +50,11 @@ func (ex *Executor) endSegment(st *State, fr *Frame, to string) {
 	for _, r := range cands {
 		c, ok, err := ex.matchRow(st, fr, r, evs)
 		if err != nil {
+			if strings.Contains(err.Error(), "unknown identifier") {
+				// the row talks about a variable that does not exist on this path (e.g. the loop variable on the
+				// exit path): it is not a candidate here; a row that is a candidate nowhere is reported as dead
+				continue
+			}
 			ex.errf("%s: row %s: %v", ex.unitKey, r.Name, err)
 			continue
 		}
